@@ -59,15 +59,16 @@ func (g *gen) Generate(typs []types.Type) error {
 	if !ok {
 		return fmt.Errorf("%s, the first argument, %s, is not of type map", g.GetFuncName(typ), typ)
 	}
-	return g.genFuncFor(mapType)
+	return g.genFuncFor(typ, mapType)
 }
 
-func (g *gen) genFuncFor(typ *types.Map) error {
+func (g *gen) genFuncFor(typ types.Type, mapType *types.Map) error {
 	p := g.printer
+	// typ, not its underlying map type, is what was registered: a named map type is its own entry.
 	g.Generating(typ)
 	name := g.GetFuncName(typ)
 	typeStr := g.TypeString(typ)
-	keyType := typ.Key()
+	keyType := mapType.Key()
 	keyTypeStr := g.TypeString(keyType)
 	p.P("")
 	p.P("// %s returns the keys of the input map as a slice.", name)
